@@ -11,7 +11,7 @@ META = {
     "level": "translation_validation",
     "engine": "E1 artifact-level SMT: companion nodes of tx.ternary(c) proved equal to a dual-rail Kleene reference for all (value, X) input pairs",
     "hashseeds": {"quick": [0, 1], "thorough": [0, 1, 2, 3, 4, 5, 6, 7]},
-    "shards": {"quick": 8, "thorough": 2},
+    "shards": {"quick": 8, "thorough": 4},
     "bounds": {
         "quick": "F-unit K=1..5 for all 8 types + type pairs, F-shape (incl. 0/1 constants), names resembling the companion/helper names, 30 random DAGs (<=12 gates, arity<=5); ALL 3^|inputs| ternary patterns and both binary values under X (inputs: Bool value + Bool X flag)",
         "thorough": "same + 300 random DAGs + 40 DAGs with 24 gates, 8 hash seeds",
